@@ -110,7 +110,8 @@ class Stack(AbstractBijection):
         shapes = [b.shape for b in bijections]
         check_shapes_match(shapes)
 
-        self.shape = shapes[0][:axis] + (len(bijections),) + shapes[0][axis:]
+        ax = range(len(shapes[0]) + 1)[axis]  # Normalise negative axes (as jnp.stack)
+        self.shape = shapes[0][:ax] + (len(bijections),) + shapes[0][ax:]
         self.cond_shape = merge_cond_shapes([b.cond_shape for b in bijections])
 
     def transform(self, x, condition=None):
